@@ -28,3 +28,11 @@ Proof. vm_compute. reflexivity. Qed.
    C14_checked_object_passes_the_axis_check_again and C14_checks_and_defaults_are_idempotent rest *)
 Lemma axis_check_last : g_axis_check_last = true.
 Proof. reflexivity. Qed.
+
+(* D25 / D24: the guards the model and the theorems assume are in the source (Gen/Order.v, from the syntax trees):
+   MultiFrameData refuses a chunk size below 1 (C11_chunks and the chunking theorems of C10 assume 0 < chunk);
+   SourceDataWrapper refuses a negative from_idx and a to_idx beyond the rows (Write.setup_frame, C11_window_inside_the_data) *)
+Lemma chunk_positive_enforced : g_chunk_positive_enforced = true.
+Proof. reflexivity. Qed.
+Lemma window_inside_enforced : g_window_inside_enforced = true.
+Proof. reflexivity. Qed.
